@@ -163,10 +163,14 @@ def handle (args out : List String) : Verdict :=
       let mres := ";".intercalate (s2.clients.map clientResult)
       let mdump := ";".intercalate (dumpRStore s2.store)
       let itraceC := if itrace.endsWith ",HUNG" then ",".intercalate ((itrace.splitOn ",").filter (· != "HUNG")) else itrace
-      let same := mtrace == itraceC && mres == ires && mdump == idump
-      let (ok, why) := oracle specs itl ires idump
-      let info := (if same then "" else (if mtrace != itraceC then s!"model-trace={mtrace} " else "") ++ (if mres != ires then s!"model-res={mres} " else "") ++
-        (if mdump != idump then s!"model-dump={mdump} " else "")) ++ why
+      -- the scheduler gave up on the case (`HUNG`: some client never finished although it was scheduled to completion):
+      -- the marker is stripped for the comparison of the traces, but the case is JUDGED — it fails, with `sig=hung` first
+      let hungCase := itrace.endsWith ",HUNG" || itrace == "HUNG"
+      let same := mtrace == itraceC && mres == ires && mdump == idump && !hungCase
+      let (ok0, why) := oracle specs itl ires idump
+      let ok := ok0 && !hungCase
+      let info := (cond hungCase "sig=hung " "") ++ why ++ (if same then "" else (if mtrace != itraceC then s!" model-trace={mtrace}" else "") ++ (if mres != ires then s!" model-res={mres}" else "") ++
+        (if mdump != idump then s!" model-dump={mdump}" else ""))
       verdict same ok info
     | _, _, _, _, _, _ => .bad "C12 parse"
   | _ => .bad "C12 shape"
